@@ -116,6 +116,20 @@ def stepLine (_ : Unit) (line : String) : Unit × String :=
           | .ok t => "ok " ++ showUnit t.unit ++ " " ++ showUnit t.parentUnit ++ " " ++ showORat t.parentDt ++ " " ++ showORat t.factor ++ " " ++ showOVal t.values
           | .error e => showErr e)
       | _, _, _, _ => "bad-op")
+  | ["override", kind, v0, du, form, x, xu, pu, pdt] =>
+      (match parseKind? kind, parseVal? v0, parseRat? x, parseORat? pdt with
+      | some k, some v0, some x, some pdt =>
+          let alg := (k == .dur) || (k == .rate)
+          let new : Option NewVal := if form = "number" then some (.number x) else if form = "list" then some (.list x (parseUnit xu)) else none
+          (match new with
+          | none => "bad-op"
+          | some nv =>
+            if updHandler Gen.updDispatch Gen.updAtomic != "_update_timepar" then "ok direct" else
+            (match overrideInit Gen.updBranches k v0 (parseUnit du) nv (parseUnit pu) pdt alg with
+            | .ok (.tp t) => "ok tp " ++ showUnit t.unit ++ " " ++ showUnit t.parentUnit ++ " " ++ showORat t.parentDt ++ " " ++ showORat t.factor ++ " " ++ showOVal t.values
+            | .ok (.raw r) => "ok raw " ++ showRat r
+            | .error e => showErr e))
+      | _, _, _, _ => "bad-op")
   | ["shortcut", name] =>
       (match shortcutOf Gen.shortcuts name with
       | some (cls, unit) => "ok " ++ cls ++ " " ++ unit
